@@ -29,7 +29,7 @@ func init() {
 		Rule: "one run = (value stream, reader script, terminal condition, target mode) drawn from the tape; non-trivial = the simulated reader split at least one value across two reads, or injected a zero-length read, data-with-error, or a terminal error/EOF before the end of the stream; distinct = distinct hash of (stream bytes, every (len(p), n, err) the reader returned, target mode)",
 		FaultKinds: []string{"split-inside-number", "split-inside-string", "split-inside-escape", "split-inside-rune", "split-inside-literal",
 			"split-in-whitespace", "split-at-structural", "zero-read", "data+eof", "data+err", "eof-inside-value", "eof-clean-early", "err-inside-value", "err-at-boundary",
-			"err-kind-unexpected-eof", "err-kind-custom", "err-kind-wrapped", "err-kind-wraps-eof", "long-run-of-zero-length-reads", "second-decoder-used-in-turns", "cut-right-after-number"},
+			"err-kind-unexpected-eof", "err-kind-custom", "err-kind-wrapped", "err-kind-wraps-eof", "long-run-of-zero-length-reads", "second-decoder-used-in-turns", "option-set-in-the-middle-of-a-stream", "cut-right-after-number"},
 		ProbeNames: []string{"refills>1", "value-longer-than-first-read-batch", "whitespace-run>64KiB", "values-decoded", "stream>32KiB", "stream>64KiB", "number-ends-at-read-boundary", "batch-boundary-inside-number", "batch-boundary-inside-token", "batch-boundary-inside-whitespace", "terminal-rechecked", "buffered-after-terminal-checked", "parse-remainder-checked", "buffered-checked", "values-rechecked-after-buffer-refills"},
 		Real:       []string{"json.Decoder (readValue, Buffered, InputOffset), json.Parse, the whole json decode path, compiled from /repo's working tree"},
 		Model:      []string{"io.Reader (simio.Reader: scripted chunking, zero reads, data+err, terminal errors)", "reference: encoding/json.Decoder of the toolchain, fed the delivered bytes in a single read"},
@@ -268,12 +268,15 @@ func c11RefFrames(s []byte) (spans []c11Span, term error) {
 	}
 }
 
-func c11RefValues(s []byte, mode int) (vals []any, term error) {
+func c11RefValues(s []byte, mode, useNumberAt int) (vals []any, term error) {
 	dec := stdjson.NewDecoder(bytes.NewReader(s))
 	if mode == c11AnyNumber {
 		dec.UseNumber()
 	}
 	for {
+		if useNumberAt > 0 && len(vals) == useNumberAt {
+			dec.UseNumber()
+		}
 		var err error
 		var v any
 		switch mode {
@@ -336,6 +339,9 @@ type c11Scenario struct {
 	FinalWithData bool   `json:"final_with_data"`
 	Script        []int  `json:"script"`
 	Tail          int    `json:"tail"`
+	// UseNumberAt > 0: UseNumber is called between Decode #UseNumberAt-1 and
+	// Decode #UseNumberAt (an option set in the middle of a stream).
+	UseNumberAt int `json:"use_number_at,omitempty"`
 }
 
 func c11FinalErr(name string) error {
@@ -385,6 +391,9 @@ func c11GenScenario(r *core.Run) *c11Scenario {
 		sc.Cut = c11PickOffset(r, sc.Stream, tags, cont, fullSpans)
 	}
 	sc.FinalWithData = t.Chance(1, 3)
+	if sc.Mode == c11Any && t.Chance(1, 5) {
+		sc.UseNumberAt = 1 + t.Intn(6)
+	}
 	rd := &simio.Reader{}
 	chunkMode := t.Pick(3, 2, 3, 3, 2, 2)
 	c11Script(r, rd, chunkMode, len(sc.Stream))
@@ -494,7 +503,7 @@ func c11Exec(r *core.Run, sc *c11Scenario) {
 	if cut != len(stream) {
 		spans, refTerm = c11RefFrames(delivered)
 	}
-	refVals, refTerm2 := c11RefValues(delivered, mode)
+	refVals, refTerm2 := c11RefValues(delivered, mode, sc.UseNumberAt)
 	if (refTerm == io.EOF) != (refTerm2 == io.EOF) || len(refVals) > len(spans) {
 		core.Harness("C11 reference disagrees with itself: frames %d/%v values %d/%v", len(spans), refTerm, len(refVals), refTerm2)
 	}
@@ -568,6 +577,10 @@ func c11Exec(r *core.Run, sc *c11Scenario) {
 		if !sideStep() {
 			return
 		}
+		if sc.UseNumberAt > 0 && got == sc.UseNumberAt {
+			dec.UseNumber()
+			r.Fault("option-set-in-the-middle-of-a-stream")
+		}
 		var v any
 		var err error
 		switch mode {
@@ -622,7 +635,23 @@ func c11Exec(r *core.Run, sc *c11Scenario) {
 		// Buffered + unread == unconsumed input
 		if got < 3 || r.Scenario != nil || t.Chance(1, 8) {
 			r.Probe("buffered-checked")
+			// every call of Buffered yields a reader of its own: one that is only
+			// partly read is not disturbed by the next call
+			var early io.Reader
+			var earlyHead [3]byte
+			earlyN := 0
+			if got%3 == 1 {
+				early = dec.Buffered()
+				earlyN, _ = io.ReadFull(early, earlyHead[:])
+			}
 			buf, _ := io.ReadAll(dec.Buffered())
+			if early != nil {
+				rest, _ := io.ReadAll(early)
+				if all := append(append([]byte(nil), earlyHead[:earlyN]...), rest...); !bytes.Equal(all, buf) {
+					r.Fail("buffered-content", "buffered-readers-share-state", "after Decode #%d a reader returned by Buffered, read in two parts around another Buffered call, yields %d bytes (%q…), that other call's reader %d bytes", got, len(all), clip(all, 40), len(buf))
+					return
+				}
+			}
 			rest := len(buf) + len(rd.Unread())
 			p := int64(cut - rest)
 			if p < lo || p > hi {
